@@ -179,6 +179,22 @@ def run(rep, tier, seed, replay=None):
                 o_pt = complex(bz.bezier_point(tuple(p), t))
                 o_b2p = [complex(c) for c in bz.bezier2polynomial(tuple(p))]
                 o_back = [complex(c) for c in bz.polynomial2bezier(o_b2p)] if 2 <= n <= 4 else []
+                # the option variants must describe the same polynomial as the default call
+                asc = [complex(c) for c in bz.bezier2polynomial(tuple(p), numpy_ordering=False)]
+                if asc != o_b2p[::-1]:
+                    rep.violation('bezier2polynomial(numpy_ordering=False) is not the reversed coefficient list (degree %d)' % (n - 1),
+                                  {'kind': 'b2p-ordering', 'points': [common.chex(z) for z in p],
+                                   'default': [str(c) for c in o_b2p], 'ascending': [str(c) for c in asc]}, key='b2p-ordering')
+                p1d = bz.bezier2polynomial(tuple(p), return_poly1d=True)
+                v1, v2 = complex(p1d(t)), complex(np.polyval(o_b2p, t))
+                if abs(v1 - v2) > 1e-9 * (1 + abs(v2)):
+                    rep.violation('bezier2polynomial(return_poly1d=True) evaluates differently from its coefficient list',
+                                  {'kind': 'b2p-poly1d', 'points': [common.chex(z) for z in p], 't': common.fhex(t)}, key='b2p-poly1d')
+                if 2 <= n <= 4:
+                    back1d = [complex(c) for c in bz.polynomial2bezier(np.poly1d(o_b2p))] if o_b2p[0] != 0 else o_back
+                    if any(abs(a - b) > 1e-9 * (1 + abs(b)) for a, b in zip(back1d, o_back)) or len(back1d) != len(o_back):
+                        rep.violation('polynomial2bezier(poly1d) differs from polynomial2bezier(coefficients)',
+                                      {'kind': 'p2b-poly1d', 'points': [common.chex(z) for z in p]}, key='p2b-poly1d')
                 if n >= 2:
                     sl, sr = bz.split_bezier(tuple(p), t)
                     hl, hr = bz.halve_bezier(tuple(p))
